@@ -172,7 +172,7 @@ func ensureWorld(t interface{ Fatalf(string, ...any) }) s3kit.Snapshot {
 
 // ---------------------------------------------------------------- adversarial strings
 
-var segAlphabet = []string{"..", "..", ".", "", "%2e%2e", "%2E%2e", "..%2f", "%2f", "%2F..", "a", "own.txt", "d", "own2.txt", ".uploads", "aup", "vup", "0001.part",
+var segAlphabet = []string{"..", "..", ".", ".", "", "", "%2e", ".uploads/aup", ".uploads/aup/0001.part", "./.uploads", "%2e%2e", "%2E%2e", "..%2f", "%2f", "%2F..", "a", "own.txt", "d", "own2.txt", ".uploads", "aup", "vup", "0001.part",
 	"victimb", "vsecret-k1.txt", "vdir", "vinner-k2.txt", "etc", "vconf-k4.conf", "topics", "victim", "vtopic-k5", "vtop-k6.txt", "buckets", "atk", "atk2", "vnear-k3.txt",
 	"...", "..;", "%252e%252e", "..%5c", "\\..", "ü", "日本", "%20", "+", "%00", strings.Repeat("L", 300)}
 
@@ -184,6 +184,10 @@ var keyTemplates = []string{
 	"own.txt", "d/own2.txt", "d//own2.txt", "/own.txt", "d/./own2.txt", "d/own2.txt/", "new/obj.bin", "//etc/vconf-k4.conf", "..\\victimb\\vsecret-k1.txt",
 	"%252e%252e/victimb/vsecret-k1.txt", "..%00/victimb/vsecret-k1.txt", "../atk/own.txt", "../atk/../victimb/vsecret-k1.txt",
 	"victimb/vsecret-k1.txt", "atk2/vnear-k3.txt", "etc/vconf-k4.conf", "buckets/victimb/vsecret-k1.txt", "atk/own.txt",
+	// "." and empty segments do not climb but vanish when the filer cleans the path
+	"./.uploads/aup/0001.part", "//.uploads/aup/0001.part", "././.uploads/aup/0001.part", ".//.uploads/aup/0001.part", "/./.uploads/aup/0001.part", "///.uploads/aup/0001.part",
+	"%2e/.uploads/aup/0001.part", "./%2euploads/aup/0001.part", "%2e%2f.uploads/aup/0001.part", "./.uploads/aup", "//.uploads/aup", "./.uploads", "//.uploads", "./.uploads/aup/0002.part",
+	"d/./../.uploads/aup/0001.part", "./d/.././.uploads/aup/0001.part", ".uploads/./aup//0001.part", "./.uploads/new/0001.part", "./d/own2.txt", ".//d//own2.txt",
 	"%252e%252e/%252e%252e/planted-2x.txt", "%252e%252e%252f%252e%252e%252fetc%252fvconf-k4.conf", "%252e%252e/victimb/vdir/planted-2x.txt",
 }
 
@@ -199,6 +203,8 @@ var copySourceTemplates = []string{
 	"/atk/own.txt", "/atk/d/own2.txt", "/victimb/vsecret-k1.txt", "victimb/vdir/../vsecret-k1.txt", "/atk2/vnear-k3.txt", "/victimb/../atk2/vnear-k3.txt", "/atk/../victimb/vsecret-k1.txt",
 	"%2Fatk%2F..%2F..%2Fetc%2Fvconf-k4.conf", "/atk/%2e%2e/%2e%2e/etc/vconf-k4.conf", "/buckets/victimb/vsecret-k1.txt", "/..", "/", "atk", "/atk/nosuch",
 	"/etc/vconf-k4.conf", "/topics/victim/vtopic-k5", "/vtop-k6.txt", "vtop-k6.txt",
+	"/atk/./.uploads/aup/0001.part", "/atk//.uploads/aup/0001.part", "atk/././.uploads/aup/0001.part", "/atk/%2e/.uploads/aup/0001.part", "/atk/.%2F.uploads/aup/0001.part", "/atk/./%2euploads/aup/0001.part",
+	"/victimb/./.uploads/vup/0001.part", "/victimb//.uploads/vup/0001.part", "//atk/.uploads/aup/0001.part", "/./atk/.uploads/aup/0001.part", "/atk/./d/own2.txt", "/victimb/.//vsecret-k1.txt",
 	"/atk/%252e%252e/%252e%252e/etc/vconf-k4.conf", "/atk/%252e%252e%252f%252e%252e%252fvtop-k6.txt", "/victimb/%252euploads/vup/0001.part", "/atk/%252euploads/aup/0001.part",
 }
 
@@ -206,9 +212,14 @@ var batchKeyTemplates = []string{
 	"../victimb/vsecret-k1.txt", "../../etc/vconf-k4.conf", "../../vtop-k6.txt", "../victimb/vdir", "../victimb", "..", "../atk2/vnear-k3.txt", "../../topics/victim/vtopic-k5",
 	".uploads/aup/0001.part", ".uploads/aup", ".uploads", "own.txt", "d/own2.txt", "d", "/../victimb/vsecret-k1.txt", "d/../../victimb/vsecret-k1.txt", "../../buckets/victimb/vsecret-k1.txt",
 	"nosuch", "d/../own.txt", "%2e%2e/victimb/vsecret-k1.txt", "../atk", ".", "",
+	"./.uploads/aup/0001.part", "//.uploads/aup/0001.part", "/./.uploads/aup/0001.part", "./.uploads/aup", "//.uploads/aup", "./.uploads", "//.uploads", "././.uploads/aup/0001.part", ".uploads/./aup", "./d/own2.txt", "d/./own2.txt",
 }
 
-var postKeyTemplates = []string{"2/vnear-k3.txt", "x-sibling.txt", "/own3.txt", "/../victimb/planted.txt", "../victimb/planted.txt", "/d/posted.bin", "/.uploads/aup/0009.part", "/../../etc/planted.conf", "${filename}", "/${filename}"}
+var postFileNames = []string{"fname.bin", "..", ".uploads", ".", "aup", "victimb"}
+
+var postKeyTemplates = []string{"/./.uploads/aup/0009.part", "//.uploads/aup/0009.part", "./.uploads/aup/0009.part", "/.//.uploads/aup/0009.part", "/${filename}/aup/0009.part", "${filename}/aup/0009.part",
+	"/d/${filename}/${filename}/${filename}/etc/planted.conf", "/${filename}/victimb/planted.txt", "/${filename}/${filename}/vtop-k6.txt", "/./${filename}/aup/0009.part", "/x/${filename}",
+	"2/vnear-k3.txt", "x-sibling.txt", "/own3.txt", "/../victimb/planted.txt", "../victimb/planted.txt", "/d/posted.bin", "/.uploads/aup/0009.part", "/../../etc/planted.conf", "${filename}", "/${filename}"}
 
 func genJoined(t *rapid.T, label string) string {
 	n := rapid.IntRange(1, 5).Draw(t, label+"-n")
@@ -298,6 +309,7 @@ type op struct {
 	src     string   // X-Amz-Copy-Source header value
 	batch   []string // decoded batch-delete keys
 	postKey string   // POST form key
+	postFile string  // file name of the POST form's file part (substituted for ${filename})
 	prefix  string   // list prefix / marker
 	rawQ    bool
 	req     *s3kit.Req
@@ -372,7 +384,10 @@ func (o *op) build(host string) {
 		target = "/" + B
 		now := time.Now().UTC()
 		f := s3kit.PostPolicyV4(poster, now, "us-east-1", B, o.postKey, now.Add(10*time.Minute), []byte("ATTACKER-POSTED-DATA"))
-		f.Name = "..%2fup/../fname.bin"
+		f.Name = o.postFile
+		if f.Name == "" {
+			f.Name = "..%2fup/../fname.bin"
+		}
 		ct, body := f.Encode()
 		r.Header = append(r.Header, s3kit.KV{K: "Content-Type", V: ct})
 		r.Body = body
@@ -410,7 +425,7 @@ func (o *op) String() string {
 		s += fmt.Sprintf(" keys=%q", o.batch)
 	}
 	if o.route == "PostPolicy" {
-		s += fmt.Sprintf(" form-key=%q", o.postKey)
+		s += fmt.Sprintf(" form-key=%q file-name=%q", o.postKey, o.postFile)
 	}
 	if len(s) > 700 {
 		s = s[:700] + "…"
@@ -449,6 +464,7 @@ func genOp(t *rapid.T) *op {
 		o.batch = append(o.batch, genFrom(t, "batchKey", batchKeyTemplates))
 	}
 	o.postKey = rapid.SampledFrom(postKeyTemplates).Draw(t, "postKey")
+	o.postFile = rapid.SampledFrom(postFileNames).Draw(t, "postFile")
 	o.prefix = genFrom(t, "prefix", keyTemplates)
 	return o
 }
@@ -600,9 +616,10 @@ func findingClasses(o *op) []string {
 			}
 		}
 	case "PostPolicy":
+		postKey := strings.ReplaceAll(o.postKey, "${filename}", path.Base(o.postFile))
 		if !strings.HasPrefix(o.postKey, "/") {
 			add(kPostKey)
-		} else if r := resolve(bucketDir, o.postKey); !within(r, bucketDir) {
+		} else if r := resolve(bucketDir, postKey); !within(r, bucketDir) {
 			add(kKey)
 		} else if within(r, uploadsDir) {
 			add(kUploads)
@@ -808,7 +825,13 @@ func templateOps() []*op {
 		items = append(items, &op{route: "DeleteMultipleObjects", key: "x", batch: []string{k}})
 	}
 	for _, k := range postKeyTemplates {
-		items = append(items, &op{route: "PostPolicy", key: "x", postKey: k})
+		if !strings.Contains(k, "${filename}") {
+			items = append(items, &op{route: "PostPolicy", key: "x", postKey: k})
+			continue
+		}
+		for _, fn := range postFileNames {
+			items = append(items, &op{route: "PostPolicy", key: "x", postKey: k, postFile: fn})
+		}
 	}
 	for _, r := range []string{"ListObjectsV1", "ListObjectsV2", "ListMultipartUploads"} {
 		for _, k := range keyTemplates {
